@@ -83,7 +83,17 @@ def sample(muts, n, seed):
         if len(out) >= n: break
     return out
 
-def run_one(m, outdir, tier="quick", maxprops=5):
+def anchored():
+    """property -> header basenames its anchors name (properties.jsonl): those properties are tried first on a line of that file"""
+    a = {}
+    for l in open(os.path.join(VERIF, "properties.jsonl")):
+        try: p = json.loads(l)
+        except Exception: continue
+        a[p["id"]] = {os.path.basename(f) for f in p.get("anchors", {}).get("files", [])}
+    return a
+ANCH = None
+
+def run_one(m, outdir, tier="quick", maxprops=7):
     tmp = tempfile.mkdtemp(prefix="stmut-", dir="/tmp")
     try:
         shutil.copytree(os.path.join(REPO, "include"), os.path.join(tmp, "include"))
@@ -93,7 +103,10 @@ def run_one(m, outdir, tier="quick", maxprops=5):
         assert src[m["line"] - 1] == m["old"]
         src[m["line"] - 1] = m["new"]
         open(p, "w").write("\n".join(src))
-        props = sorted(m["props"], key=lambda x: COST.get(x, 30))[:maxprops]
+        global ANCH
+        if ANCH is None: ANCH = anchored()
+        # properties anchored in this header first (cheapest first), then the others that merely pass through the line
+        props = sorted(m["props"], key=lambda x: (0 if m["file"] in ANCH.get(x, ()) else 1, COST.get(x, 30)))[:maxprops]
         rec = dict(m, tried=[], status="survived")
         for pr in props:
             t0 = time.time()
@@ -158,6 +171,21 @@ def main():
         # the checks regenerate lean/StVerif/Generated from the tree they look at: put the real tree's back
         subprocess.run([sys.executable, os.path.join(HERE, "gen_tables.py")], cwd=VERIF, env=dict(os.environ, ST_REPO=REPO), stdout=subprocess.DEVNULL)
         subprocess.run([sys.executable, os.path.join(HERE, "gen_statics.py")], cwd=VERIF, env=dict(os.environ, ST_REPO=REPO), stdout=subprocess.DEVNULL)
+        return 0
+    if cmd == "recheck":
+        # survivors of an earlier run, checked again by every property whose generators reach the line (no cap)
+        recs = []
+        for p_ in glob.glob(os.path.join(results or out, "results-*.jsonl")):
+            recs += [json.loads(l) for l in open(p_)]
+        surv = [r for r in recs if r["status"] == "survived"]
+        path = os.path.join(results or out, "recheck.jsonl")
+        done = {json.loads(l)["id"] for l in open(path)} if os.path.exists(path) else set()
+        for r in surv:
+            if r["id"] in done: continue
+            m = {k: r[k] for k in ("id", "file", "line", "kind", "old", "new", "props")}
+            rec = run_one(m, out, maxprops=99)
+            with open(path, "a") as f: f.write(json.dumps(rec) + "\n")
+            print("%s %s %s | %s => %s | %s" % (rec["status"], rec["id"], rec["kind"], rec["old"].strip(), rec["new"].strip(), rec.get("by", "")), flush=True)
         return 0
     if cmd == "suite":
         recs = []
